@@ -129,12 +129,21 @@ def main(argv=None) -> int:
     if not a.no_evidence and not a.src:
         write_evidence(prop, tier, seed, ctx, mod, listed, unlisted, extra, time.time() - t0)
     n = len(ctx.results)
+    log = _canon_log()
+    if log:
+        print(f"note: {len(log)} function(s) differ from the pinned tree only by restructuring and were analysed in normal form: "
+              + ", ".join(sorted({f'{m_.split(".", 1)[-1]}:{f_}' for m_, f_, _ in log})[:12]) + (" ..." if len(log) > 12 else ""))
     print(
         f"{prop} [{tier}] {n} rule instances over {len(ctx.analysed_functions)} functions: "
         f"{n - len(viol)} hold, {len(listed)} known findings, {len(unlisted) + len(extra_viol)} new violations "
         f"({time.time() - t0:.2f}s)"
     )
     return rc
+
+
+def _canon_log():
+    from sa import canon
+    return list(canon.LOG)
 
 
 def write_evidence(prop, tier, seed, ctx, mod, listed, unlisted, extra, wall):
@@ -177,6 +186,7 @@ def write_evidence(prop, tier, seed, ctx, mod, listed, unlisted, extra, wall):
             exhaustive=False,
             modules_parsed=len(ctx.model.modules),
             functions_analysed=sorted(ctx.analysed_functions),
+            normalised=[dict(module=m_, function=f_, what=w_) for m_, f_, w_ in _canon_log()][:200],
             checker_cmd=f"/venv/bin/python check.py {prop} --tier {tier}",
             trusted_base=TRUSTED + list(getattr(mod, "TRUSTED", [])),
             thorough=extra or None,
